@@ -246,9 +246,20 @@ func (ch *channel) addInitDataAndUpdateTimescale(stream stream, init *mp4.InitSe
 			}
 		}
 	}
-	rep := m.NewRepresentation()
-	rep.Id = stream.trName
-	currAsSet.AppendRepresentation(rep)
+	// A sender that restarts sends the init segment of a known track again: the Representation is described
+	// anew, not listed a second time (ids are unique in an MPD).
+	var rep *m.RepresentationType
+	for _, knownRep := range currAsSet.Representations {
+		if knownRep.Id == stream.trName {
+			rep = knownRep
+			break
+		}
+	}
+	if rep == nil {
+		rep = m.NewRepresentation()
+		rep.Id = stream.trName
+		currAsSet.AppendRepresentation(rep)
+	}
 	ext := extFromMediaType[stream.mediaType]
 	if currAsSet.SegmentTemplate == nil {
 		currAsSet.SegmentTemplate = m.NewSegmentTemplate()
@@ -440,9 +451,11 @@ func (ch *channel) addTrData(rd *trData) {
 	if firstVideoTrack {
 		ch.masterTrName = rd.name
 	}
+	if _, known := ch.trDatas[rd.name]; !known {
+		ch.trIDs = append(ch.trIDs, rd.name)
+		sort.Strings(ch.trIDs)
+	}
 	ch.trDatas[rd.name] = rd
-	ch.trIDs = append(ch.trIDs, rd.name)
-	sort.Strings(ch.trIDs)
 	ch.mu.Unlock()
 }
 
